@@ -1,9 +1,12 @@
 """C15 — Fold / Sum / Count / Flatten / Merge / flatten() / merge(): generators, implementation
 runner (object graph in, identity-aware observation out), shrinker."""
+import copy
 import itertools
 import json
 import os
 import random
+import struct
+import types
 from collections import OrderedDict
 
 PROP = 'C15'
@@ -71,12 +74,77 @@ class Obj:
         self.__dict__.update(kw)
 
 
+class Crate(Obj):
+    """a plain object below Obj: no __iter__"""
+
+
+class Box:
+    """an iterable object: iter(box) walks `names`; the handler `h:items` walks `items` instead"""
+    def __init__(self, **kw):
+        self.__dict__.update(kw)
+
+    def __iter__(self):
+        return iter(self.names)
+
+
+class SubBox(Box):
+    pass
+
+
+class SubSubBox(SubBox):
+    pass
+
+
+class Bag(list):
+    pass
+
+
+class SubBag(Bag):
+    pass
+
+
+INST_CLASSES = {'Obj': Obj, 'Crate': Crate, 'Box': Box, 'SubBox': SubBox, 'SubSubBox': SubSubBox}
+POOL = {'Obj': Obj, 'Crate': Crate, 'Box': Box, 'SubBox': SubBox, 'SubSubBox': SubSubBox, 'Bag': Bag,
+        'SubBag': SubBag, 'Acc': Acc}
+
+
+def _raise_handler(x):
+    raise ValueError('no iteration for %r' % type(x).__name__)
+
+
+# `iterate` handlers a case may register (the names are what the Lean model's `runHandler` knows)
+HANDLERS = {
+    'iter': iter,
+    'h:rev': lambda x: iter(list(x)[::-1]),
+    'h:tail': lambda x: iter(list(x)[1:]),
+    'h:aslist': lambda x: list(x),
+    'h:items': lambda x: iter(x.items),
+    'h:raise': _raise_handler,
+}
+for _n, _f in HANDLERS.items():
+    if _n != 'iter':
+        _f.tag = _n
+
+
 def first_wins(d, v):
     for k, x in v.items():
         d.setdefault(k, x)
 
 
-CLS = {'list': list, 'Acc': Acc, 'tuple': tuple, 'dict': dict, 'OrderedDict': OrderedDict, 'Obj': Obj}
+CLS = {'list': list, 'Acc': Acc, 'Bag': Bag, 'SubBag': SubBag, 'tuple': tuple, 'dict': dict,
+       'OrderedDict': OrderedDict, 'Obj': Obj}
+CLS.update(INST_CLASSES)
+
+
+def fbits(x):
+    """a float as the 16 hex digits of its IEEE-754 bit pattern (every NaN: the canonical quiet NaN)"""
+    if x != x:
+        return '7ff8000000000000'
+    return struct.pack('>d', x).hex()
+
+
+def ffrom(s):
+    return struct.unpack('>d', bytes.fromhex(s))[0]
 
 
 def jval(v):
@@ -86,6 +154,8 @@ def jval(v):
         return {'b': v}
     if isinstance(v, int):
         return {'i': v}
+    if isinstance(v, float):
+        return {'f': fbits(v)}
     return {'s': v}
 
 
@@ -105,7 +175,7 @@ def decode(heap):
         if 's' in j:
             return j['s']
         if 'f' in j:
-            return float.fromhex(j['f'])
+            return ffrom(j['f'])
         if 'r' in j:
             a = j['r']
             if objs[a] is None:
@@ -133,7 +203,7 @@ def decode(heap):
         elif k == 'dict':
             objs[a] = CLS[c]()
         elif k == 'inst':
-            objs[a] = Obj()
+            objs[a] = INST_CLASSES[c]()
     for a, cell in enumerate(heap):
         if cell['k'] == 'tuple' and objs[a] is None:
             build(a)
@@ -160,7 +230,7 @@ def enc_val(v, ids):
     if isinstance(v, str):
         return {'s': v}
     if isinstance(v, float):
-        return {'f': v.hex()}
+        return {'f': fbits(v)}
     a = ids.get(id(v))
     if a is not None:
         return {'r': a}
@@ -169,14 +239,14 @@ def enc_val(v, ids):
 
 def enc_cell(o, ids, orig=None):
     t = type(o)
-    if t in (list, Acc):
+    if t in (list, Acc, Bag, SubBag):
         return {'k': 'list', 'c': t.__name__, 'v': [enc_val(x, ids) for x in list.__iter__(o)]}
     if t is tuple:
         return {'k': 'tuple', 'c': 'tuple', 'v': [enc_val(x, ids) for x in o]}
     if t in (dict, OrderedDict):
         return {'k': 'dict', 'c': t.__name__, 'v': [[enc_val(k, ids), enc_val(x, ids)] for k, x in o.items()]}
-    if t is Obj:
-        return {'k': 'inst', 'c': 'Obj', 'v': [[k, enc_val(x, ids)] for k, x in o.__dict__.items()]}
+    if t in INST_CLASSES.values():
+        return {'k': 'inst', 'c': t.__name__, 'v': [[k, enc_val(x, ids)] for k, x in o.__dict__.items()]}
     if orig is not None and orig.get('c') == 'generator':
         return orig            # a generator cannot be re-read; not observed
     return {'k': 'inst', 'c': t.__name__, 'v': []}
@@ -185,10 +255,24 @@ def enc_cell(o, ids, orig=None):
 # ------------------------------------------------------------------ implementation runner
 def build_init(j, dv):
     if isinstance(j, dict):
+        if 'copy' in j:
+            obj = dv(j['copy'])
+            if isinstance(obj, (list, tuple, dict)):
+                return lambda: type(obj)(obj)          # a NEW container with OBJ's content, every call
+            return lambda: obj
         obj = dv(j['shared'])
         return lambda: obj
-    return {'int': int, 'str': str, 'list': list, 'tuple': tuple, 'dict': dict,
+    return {'int': int, 'float': float, 'str': str, 'list': list, 'tuple': tuple, 'dict': dict,
             'OrderedDict': OrderedDict, 'Acc': Acc, 'lazy': 'lazy'}[j]
+
+
+def op_append(a, v):
+    a.append(v)
+    return a
+
+
+def op_cons(a, v):
+    return [v] + a
 
 
 def build_sub(sub, dv):
@@ -199,8 +283,9 @@ def build_sub(sub, dv):
     return t
 
 
-def make_callable(prog, dv):
-    """-> f(target) evaluating the SAME spec object each time (built here, once)"""
+def make_callable(prog, dv, glommer=None):
+    """-> f(target) evaluating the SAME spec object each time (built here, once); `glommer`: evaluate
+    through that Glommer (its own registry) instead of the module-level glom()"""
     import operator
     import glom
     from glom import Fold, Sum, Flatten, Merge, flatten, merge
@@ -213,7 +298,7 @@ def make_callable(prog, dv):
     op = prog.get('op')
     if kind == 'fold':
         if op is not None:
-            kw['op'] = {'iadd': operator.iadd, 'add': operator.add}[op]
+            kw['op'] = {'iadd': operator.iadd, 'add': operator.add, 'append': op_append, 'cons': op_cons}[op]
         spec = Fold(sub, **kw)
     elif kind == 'sum':
         spec = Sum(sub, **kw)
@@ -234,6 +319,8 @@ def make_callable(prog, dv):
         return lambda t: flatten(t, spec=sub, **kw)
     else:
         raise ValueError(kind)
+    if glommer is not None:
+        return lambda t: glommer.glom(t, spec)
     return lambda t: glom.glom(t, spec)
 
 
@@ -252,25 +339,123 @@ def enc_err(e):
     return {'err': [c.__name__, issubclass(c, GlomError)]}
 
 
+def events_of(case):
+    """the history of a case: [{'t': target} | {'reg': {'cls', 'exact', 'kw'}}]; an old-style case
+    lists `targets` (evaluations only)"""
+    if 'events' in case:
+        return case['events']
+    return [{'t': t} for t in case['targets']]
+
+
+def targets_of(case):
+    return [e['t'] for e in events_of(case) if 't' in e]
+
+
+_HIER = {}
+
+
+def hier_tables():
+    """Python's own answers about the classes a case can mention: `__mro__`, isinstance, issubclass,
+    and what the registry's auto-discovery functions return (shape of C13's tables)"""
+    from glom import core
+    key = os.path.abspath(core.__file__)
+    if key in _HIER:
+        return _HIER[key]
+    base = [object, dict, OrderedDict, list, tuple, set, frozenset, str, bytes, int, bool, float, type(None),
+            core._AbstractIterable, core._ObjStyleKeys, types.GeneratorType, itertools.chain]
+    base += list(POOL.values())
+    classes = []
+    for c in base:
+        for k in c.__mro__:
+            if k not in classes:
+                classes.append(k)
+    names = [c.__name__ for c in classes]
+    assert len(set(names)) == len(names), names
+
+    def sample(c):
+        if c is type(None):
+            return None
+        if c is types.GeneratorType:
+            return (x for x in ())
+        try:
+            return c()
+        except Exception:
+            return NotImplemented
+    mro = [[c.__name__, [k.__name__ for k in c.__mro__]] for c in classes]
+    sub = [[c.__name__, d.__name__] for c in classes for d in classes if issubclass(c, d)]
+    inst = []
+    for c in classes:
+        x = sample(c)
+        for d in classes:
+            if (isinstance(x, d) if x is not NotImplemented else issubclass(c, d)):
+                inst.append([c.__name__, d.__name__])
+    fresh = core.TargetRegistry(register_default_types=False)
+
+    def outcome(fn, c):
+        try:
+            h = fn(c)
+        except Exception:
+            return '!raise'
+        if h is False:
+            return 'False'
+        if not callable(h):
+            return '!bad'
+        return getattr(h, '__qualname__', None) or getattr(h, '__name__', None) or repr(h)
+    auto = [['auto_' + op, [[c.__name__, outcome(fn, c)] for c in classes]]
+            for op, fn in fresh._op_auto_map.items()]
+    _HIER[key] = {'mro': mro, 'inst': inst, 'sub': sub, 'auto': auto}
+    return _HIER[key]
+
+
+def class_of(name):
+    from glom import core
+    if name in POOL:
+        return POOL[name]
+    return {'object': object, 'dict': dict, 'OrderedDict': OrderedDict, 'list': list, 'tuple': tuple,
+            'set': set, 'frozenset': frozenset, 'str': str, 'int': int, 'float': float,
+            '_AbstractIterable': core._AbstractIterable, 'generator': types.GeneratorType,
+            'chain': itertools.chain}[name]
+
+
 def run_impl(case):
+    import glom
+    from glom import core
     heap = case['heap']
     objs, dv = decode(heap)
     ids = {}
     for a, o in enumerate(objs):
         ids.setdefault(id(o), a)       # `()` is one object: the first empty-tuple cell stands for it
-    targets = [dv(t) for t in case['targets']]
+    events = events_of(case)
+    registry = case.get('registry', 'module')
+    # every case starts from a registry nobody has looked anything up in: the module-level default
+    # registry is replaced by a deep copy (empty memo) for the duration of the case; a Glommer is new
+    saved = core._DEFAULT_SCOPE[core.TargetRegistry]
+    mine = copy.deepcopy(saved)
+    mine._type_cache = {}
+    core._DEFAULT_SCOPE[core.TargetRegistry] = mine
     raw = []
     try:
-        f = make_callable(case['prog'], dv)
-    except Exception as e:            # the constructor itself raised: nothing is evaluated
-        raw = [('err', e)] * len(targets)
-        f = None
-    if f is not None:
-        for t in targets:
-            try:
-                raw.append(('ok', f(t)))
-            except Exception as e:
-                raw.append(('err', e))
+        glommer = glom.Glommer() if registry == 'glommer' else None
+        try:
+            f = make_callable(case['prog'], dv, glommer)
+        except Exception as e:            # the constructor itself raised: nothing is evaluated
+            raw = [('err', e)] * len([e for e in events if 't' in e])
+            f = None
+        if f is not None:
+            for ev in events:
+                if 't' in ev:
+                    try:
+                        raw.append(('ok', f(dv(ev['t']))))
+                    except Exception as e:
+                        raw.append(('err', e))
+                else:
+                    r = ev['reg']
+                    kw = {op: (HANDLERS[h] if h is not None else False) for op, h in r['kw']}
+                    if r['exact'] or r.get('exact_given'):
+                        kw['exact'] = r['exact']
+                    (glommer.register if glommer is not None else glom.register)(class_of(r['cls']), **kw)
+    finally:
+        core._DEFAULT_SCOPE[core.TargetRegistry] = saved
     results, seen = [], []
     for kind, r in raw:
         if kind == 'err':
@@ -302,7 +487,7 @@ def run_impl(case):
             results[i] = {'fresh': enc_cell(r, ids)}
     after = [enc_cell(o, ids, heap[a]) for a, o in enumerate(objs)]
     out = dict(case)
-    out['impl'] = {'results': results, 'after': after}
+    out['impl'] = {'results': results, 'after': after, 'hier': hier_tables()}
     return out
 
 
@@ -317,6 +502,8 @@ class H:
 
 
 INTS = [0, 1, 2, 3, 7, -1, -5, 10, 100]
+FLOATS = [0.1, 0.2, 0.3, 0.5, 1.5, -2.25, 1.0, 3.0, 1e16, -1e16, 1e-3, 2.0 ** 53, 1e308, -0.0, 0.0,
+          float('inf'), float('-inf'), float('nan')]
 STRS = ['', 'a', 'b', 'ab', 'xyz', 'k']
 KEYS = ['a', 'b', 'c', 0, 1, 2, None, True]
 
@@ -326,6 +513,11 @@ def scalar(rng, fam):
         return jval(rng.choice(INTS + [True, False]) if rng.random() < 0.15 else rng.choice(INTS))
     if fam == 'str':
         return jval(rng.choice(STRS))
+    if fam == 'num':        # ints, bools and floats mixed: addition is left to right, one IEEE operation per step
+        c = rng.random()
+        if c < 0.55:
+            return jval(rng.choice(FLOATS[:13]) if rng.random() < 0.9 else rng.choice(FLOATS))
+        return jval(rng.choice(INTS + [True, False]))
     return jval(rng.choice(INTS + STRS + [None, True]))
 
 
@@ -380,7 +572,7 @@ def container(hp, kind, items):
 
 TOP_KINDS = ['list', 'list', 'list', 'tuple', 'generator', 'Acc']
 NON_ITER = [{'i': 5}, {'s': 'abc'}, None, {'b': True}, 'obj']
-INITS = ['int', 'str', 'list', 'tuple', 'dict', 'OrderedDict', 'Acc']
+INITS = ['int', 'float', 'str', 'list', 'tuple', 'dict', 'OrderedDict', 'Acc']
 
 
 def gen_target(rng, hp, elem, n=None, top=None):
@@ -396,7 +588,7 @@ def gen_target(rng, hp, elem, n=None, top=None):
 
 
 def elem_for(fam, depth=0):
-    if fam in ('int', 'str', 'any'):
+    if fam in ('int', 'str', 'any', 'num'):
         return lambda rng, hp: scalar(rng, fam)
     if fam == 'list':
         return lambda rng, hp: gen_seq(rng, hp, 'any', depth, kinds=('list',))
@@ -417,7 +609,7 @@ def elem_for(fam, depth=0):
     raise ValueError(fam)
 
 
-FAM_OF_INIT = {'int': 'int', 'str': 'str', 'list': 'seq', 'tuple': 'tuple', 'Acc': 'any',
+FAM_OF_INIT = {'int': 'int', 'float': 'num', 'str': 'str', 'list': 'seq', 'tuple': 'tuple', 'Acc': 'any',
                'dict': 'dict', 'OrderedDict': 'dict'}
 
 
@@ -442,15 +634,23 @@ def gen_prog(rng):
     prog = {'kind': kind, 'sub': []}
     if kind == 'fold':
         prog['init'] = rng.choice(INITS)
-        prog['op'] = rng.choice([None, None, 'iadd', 'add'])
+        prog['op'] = rng.choice([None, None, 'iadd', 'add', 'append', 'cons'])
         fam = FAM_OF_INIT[prog['init']]
         if prog['op'] == 'add' and prog['init'] in ('list', 'Acc'):
             fam = 'list'
         if prog['init'] in ('dict', 'OrderedDict'):
             fam = 'dict'
+        if prog['op'] in ('append', 'cons'):
+            if rng.random() < 0.8:
+                prog['init'] = rng.choice(['list', 'list', 'Acc'])
+            fam = rng.choice(['any', 'seq', 'num'])
+        if fam == 'int' and rng.random() < 0.4:
+            fam = 'num'
     elif kind == 'sum':
-        prog['init'] = rng.choice([None, None, 'int', 'int', 'str', 'list', 'tuple', 'Acc'])
+        prog['init'] = rng.choice([None, None, 'int', 'int', 'float', 'str', 'list', 'tuple', 'Acc'])
         fam = FAM_OF_INIT[prog['init'] or 'int']
+        if fam == 'int' and rng.random() < 0.5:
+            fam = 'num'              # an int start with float addends: the sum turns float at the first one
     elif kind == 'count':
         fam = rng.choice(['int', 'any', 'list', 'dict'])
     elif kind == 'flatten':
@@ -468,40 +668,47 @@ def gen_prog(rng):
                 fam = 'dict'
     else:  # flatten_fn
         prog['levels'] = rng.choice([None, 0, 1, 1, 2, 2, 3, 3, 4])
-        prog['init'] = rng.choice([None, None, 'list', 'list', 'lazy', 'tuple', 'int', 'str', 'Acc'])
+        prog['init'] = rng.choice([None, None, 'list', 'list', 'lazy', 'tuple', 'int', 'float', 'str', 'Acc'])
         fam = 'nested'
     return prog, fam
 
 
-def gen_case(rng, tier, kinds=None):
+def gen_case(rng, tier, kinds=None, regs=None):
     hp = H()
     for _ in range(50):
         prog, fam = gen_prog(rng)
         if not kinds or prog['kind'] in kinds:
             break
     mode = rng.random()
+    regmode = (rng.random() < REG_SHARE) if regs is None else regs
     ntargets = rng.choice([1, 1, 2, 2, 3])
     targets = []
+    tclasses = []
     base = None
+
+    def fresh_target():
+        if fam == 'nested':
+            lv = prog['levels'] if prog['levels'] is not None else 1
+            init = prog['init'] or 'list'
+            if init in ('int', 'str', 'float'):
+                leaf = {'int': 'int', 'float': 'num', 'str': 'str'}[init]
+                return gen_seq_depth(rng, hp, leaf, max(lv - 1, 0))
+            if init == 'tuple':
+                return gen_seq_depth(rng, hp, 'any', max(lv, 1), last='tuple')
+            if init == 'Acc':
+                return gen_seq_depth(rng, hp, 'any', max(lv - 1, 0))
+            return gen_seq_depth(rng, hp, 'any', max(lv, 1))
+        return gen_target(rng, hp, elem_for(fam))
     for ti in range(ntargets):
         if base is not None and rng.random() < 0.5:
             targets.append(base)                         # the same target again
             continue
         if fam == 'nested':
-            lv = prog['levels'] if prog['levels'] is not None else 1
-            init = prog['init'] or 'list'
-            if init in ('int', 'str'):
-                t = gen_seq_depth(rng, hp, init, max(lv - 1, 0))
-            elif init == 'tuple':
-                t = gen_seq_depth(rng, hp, 'any', max(lv, 1), last='tuple')
-            elif init == 'Acc':
-                t = gen_seq_depth(rng, hp, 'any', max(lv - 1, 0))
-            else:
-                t = gen_seq_depth(rng, hp, 'any', max(lv, 1))
+            t = fresh_target()
         else:
             top = None
-            if fam in ('int', 'str', 'any') and rng.random() < 0.2:
-                top = rng.choice(['dict', 'OrderedDict'])
+            if fam in ('int', 'str', 'any', 'num') and rng.random() < 0.2 and not regmode:
+                top = rng.choice(['dict', 'OrderedDict']) if fam != 'num' else None
             t = gen_target(rng, hp, elem_for(fam), top=top)
         # one-edit mutations
         if mode > 0.72 and ti == 0:
@@ -519,6 +726,10 @@ def gen_case(rng, tier, kinds=None):
                 prog['init'] = rng.choice(INITS)
             elif prog['kind'] == 'flatten_fn':
                 prog['levels'] = rng.choice([-1, -3, 0, 5])
+        if regmode and (mode <= 0.72 or ti > 0 or rng.random() < 0.5):
+            t, tc = wrap_pool(rng, hp, t, fresh_target)
+            if tc:
+                tclasses.append(tc)
         if base is None:
             base = t
         targets.append(t)
@@ -535,19 +746,94 @@ def gen_case(rng, tier, kinds=None):
             prog['sub'] = prog['sub'] + [jval('missing')]
     # hypothesis-violating stream: an init that returns a pre-existing object
     if rng.random() < 0.04 and prog['kind'] in ('fold', 'sum', 'flatten', 'merge'):
-        # never the iterated container itself (extending a list while iterating it does not terminate)
-        tops = {t['r'] for t in targets if isinstance(t, dict) and 'r' in t}
-        for t in list(targets):
-            if isinstance(t, dict) and 'r' in t:
-                for x in hp.heap[t['r']]['v']:
-                    for y in (x if isinstance(x, list) else [x]):
-                        if isinstance(y, dict) and 'r' in y and prog['sub']:
-                            tops.add(y['r'])
-                            tops |= {z['r'] for z in hp.heap[y['r']]['v'] if isinstance(z, dict) and 'r' in z}
+        # never a container the evaluation iterates (extending a list while iterating it does not terminate):
+        # the target, what a sub-spec / a harness instance puts in front of it — everything within 4 steps
+        tops = set()
+        level = [t['r'] for t in targets if isinstance(t, dict) and 'r' in t]
+        for _ in range(5):
+            tops |= set(level)
+            level = [x['r'] for a in level for x in refs_in(hp.heap[a]) if x['r'] not in tops]
         cands = [i for i, c in enumerate(hp.heap) if c['k'] in ('list', 'dict') and i not in tops]
         if cands:
             prog['init'] = {'shared': {'r': rng.choice(cands)}}
-    return normalise({'heap': hp.heap, 'targets': targets, 'prog': prog}, rng)
+        else:
+            prog['init'] = {'shared': rng.choice([
+                hp.alloc('list', rng.choice(['list', 'Acc']), [scalar(rng, 'any')]),
+                hp.alloc('dict', rng.choice(['dict', 'OrderedDict']), [[jval('z'), scalar(rng, 'any')]])])}
+    # a copying factory: `lambda: type(OBJ)(OBJ)` over some list / tuple / dict of the heap (a NEW object
+    # with initial content on every call)
+    elif rng.random() < 0.07 and prog['kind'] in ('fold', 'sum', 'flatten', 'merge', 'merge_fn', 'flatten_fn'):
+        cands = [i for i, c in enumerate(hp.heap)
+                 if c['k'] in ('list', 'dict') or (c['k'] == 'tuple' and c['c'] == 'tuple')]
+        if cands and rng.random() < 0.85:
+            prog['init'] = {'copy': {'r': rng.choice(cands)}}
+        else:
+            prog['init'] = {'copy': scalar(rng, rng.choice(['int', 'num', 'str']))}
+    # the history: evaluations, and (regmode) registrations before / between them
+    events = [{'t': t} for t in targets]
+    registry = 'module'
+    if regmode:
+        for _ in range(rng.choice([0, 1, 1, 2])):
+            events.insert(rng.randint(1, len(events)), {'t': rng.choice(targets)})    # the same target again, later
+        for _ in range(rng.choice([1, 1, 2, 3])):
+            pos = rng.randint(0, len(events) - 1) if rng.random() < 0.9 else len(events)
+            events.insert(pos, {'reg': gen_reg(rng, tclasses, prog)})
+        if prog['kind'] not in ('flatten_fn', 'merge_fn') and rng.random() < 0.5:
+            registry = 'glommer'
+    elif prog['kind'] not in ('flatten_fn', 'merge_fn') and rng.random() < 0.1:
+        registry = 'glommer'
+    return normalise({'heap': hp.heap, 'events': events, 'registry': registry, 'prog': prog}, rng)
+
+
+REG_SHARE = 0.3
+REG_HANDLERS = ['h:rev', 'h:rev', 'h:tail', 'h:items', 'h:items', 'h:aslist', 'iter', 'h:raise', None, 'omit']
+RELATED = {'Box': ['SubBox', 'SubSubBox', 'object'], 'SubBox': ['Box', 'SubSubBox'], 'SubSubBox': ['SubBox', 'Box'],
+           'Bag': ['list', 'SubBag'], 'SubBag': ['Bag', 'list'], 'Acc': ['list'], 'Crate': ['Obj', 'object'],
+           'Obj': ['Crate', 'object'], 'list': ['Bag', 'Acc', 'object'], 'tuple': ['object'],
+           'dict': ['OrderedDict'], 'OrderedDict': ['dict'], 'generator': ['_AbstractIterable', 'object']}
+
+
+def gen_reg(rng, tclasses, prog):
+    """one `register(cls, iterate=handler, exact=…)` call: the class of a target, a class above or below
+    it, a builtin, or (rarely) object / _AbstractIterable"""
+    c = rng.random()
+    if tclasses and c < 0.55:
+        cls = rng.choice(tclasses)
+    elif tclasses and c < 0.8:
+        cls = rng.choice(RELATED.get(rng.choice(tclasses), ['list']))
+    elif c < 0.93:
+        cls = rng.choice(['list', 'tuple', 'dict', 'OrderedDict', 'Box', 'Bag', 'Crate', 'generator'])
+    else:
+        cls = rng.choice(['object', '_AbstractIterable', 'chain'])
+    h = rng.choice(REG_HANDLERS)
+    return {'cls': cls, 'exact': rng.random() < 0.5, 'kw': [] if h == 'omit' else [['iterate', h]]}
+
+
+def degenerate(hp, v):
+    if isinstance(v, dict) and 'r' in v and hp.heap[v['r']]['c'] == 'generator':
+        hp.heap[v['r']]['c'] = 'tuple'
+
+
+def wrap_pool(rng, hp, t, other):
+    """put the container `t` behind an instance of a harness class (or make it one): -> (target, class)"""
+    if not (isinstance(t, dict) and 'r' in t):
+        return t, None
+    cell = hp.heap[t['r']]
+    c = rng.random()
+    if c < 0.45:
+        cls = rng.choice(['Box', 'Box', 'SubBox', 'SubSubBox'])
+        o = other()
+        degenerate(hp, t)
+        degenerate(hp, o)
+        return hp.alloc('inst', cls, [['names', t], ['items', o]]), cls
+    if c < 0.6 and cell['k'] == 'list' and cell['c'] == 'list':
+        cell['c'] = rng.choice(['Bag', 'SubBag'])
+        return t, cell['c']
+    if c < 0.72:
+        cls = rng.choice(['Crate', 'Obj'])
+        degenerate(hp, t)
+        return hp.alloc('inst', cls, [['items', t]]), cls      # no __iter__: a target only once registered
+    return t, cell['c']
 
 
 def gen_seq_depth(rng, hp, leaf, depth, last=None):
@@ -559,7 +845,7 @@ def gen_seq_depth(rng, hp, leaf, depth, last=None):
         return container(hp, kind, [scalar(rng, leaf) for _ in range(n)])
     items = [gen_seq_depth(rng, hp, leaf, depth - 1, last) for _ in range(n)]
     if depth == 1 and last is None and items and rng.random() < 0.2:
-        items.append(jval(rng.choice(STRS)) if leaf != 'int' else items[0])   # a str is iterable too
+        items.append(jval(rng.choice(STRS)) if leaf not in ('int', 'num') else items[0])   # a str is iterable too
     kind = rng.choice(kinds)
     return container(hp, kind, items)
 
@@ -634,7 +920,9 @@ def count_paths(heap, v, acc, depth):
 def normalise(case, rng=None):
     """canonical form of a case: one cell stands for the empty tuple (CPython has a single `()`),
     and every generator object is reachable at most once (it can be consumed once only)"""
-    heap, targets = case['heap'], case['targets']
+    heap = case['heap']
+    events = events_of(case)
+    targets = [e['t'] for e in events if 't' in e]
     count = {}
     for cell in heap:
         for x in refs_in(cell):
@@ -663,17 +951,22 @@ def normalise(case, rng=None):
                     heap[b]['c'] = 'tuple'
     # evaluations that would meet an already consumed generator
     used, out = set(), []
-    for t in targets:
+    for ev in events:
+        if 't' not in ev:
+            out.append(ev)
+            continue
         g = set()
-        generators_reached(heap, t, g, set())
+        generators_reached(heap, ev['t'], g, set())
         if g & used:
             if rng is not None and rng.random() < 0.5:
                 continue
             for a in g & used:
                 heap[a]['c'] = 'tuple'
         used |= g
-        out.append(t)
-    case['targets'] = targets = out
+        out.append(ev)
+    case.pop('targets', None)
+    case['events'] = events = out
+    case.setdefault('registry', 'module')
     first_empty = None
     remap = {}
     for a, cell in enumerate(heap):
@@ -691,17 +984,17 @@ def normalise(case, rng=None):
             return x
         for cell in heap:
             cell['v'] = [fix(x) for x in cell['v']]
-        case['targets'] = targets = [fix(t) for t in targets]
+        case['events'] = [({'t': fix(e['t'])} if 't' in e else e) for e in events]
         p = case['prog']
         if isinstance(p.get('init'), dict):
-            p['init'] = {'shared': fix(p['init']['shared'])}
+            p['init'] = {k: fix(v) for k, v in p['init'].items()}
     return case
 
 
-def generate(rng, tier, scale, kinds=None, **focus):
+def generate(rng, tier, scale, kinds=None, regs=None, **focus):
     n = (1800 if tier == "quick" else 60000) * scale
     for _ in range(n):
-        yield gen_case(rng, tier, kinds)
+        yield gen_case(rng, tier, kinds, regs)
     if tier == 'thorough' and not kinds:
         yield from exhaustive()
 
@@ -742,9 +1035,52 @@ def exhaustive():
               {'kind': 'flatten_fn', 'sub': [], 'levels': -1}]
     for lv in (1, 2, 3):
         progs.append({'kind': 'flatten_fn', 'sub': [], 'init': 'lazy', 'levels': lv})
+    for init in ('int', 'float', 'list', 'Acc'):
+        for op in ('append', 'cons'):
+            progs.append({'kind': 'fold', 'sub': [], 'init': init, 'op': op})
     for heap, t in fixed_targets():
         for p in progs:
-            yield normalise({'heap': json.loads(json.dumps(heap)), 'targets': [t, t], 'prog': dict(p)})
+            yield normalise({'heap': json.loads(json.dumps(heap)), 'events': [{'t': t}, {'t': t}],
+                             'registry': 'module', 'prog': dict(p)})
+    yield from exhaustive_regs()
+
+
+def exhaustive_regs():
+    """every (instance class, registered class, handler, exact, registry) over three fixed progs, the
+    registration placed before / between / after two evaluations of the same object"""
+    progs = [{'kind': 'flatten', 'sub': []}, {'kind': 'fold', 'sub': [], 'init': 'list', 'op': 'append'},
+             {'kind': 'flatten_fn', 'sub': [], 'levels': 2}]
+    insts = ['Box', 'SubBox', 'SubSubBox', 'Bag', 'SubBag', 'Crate', 'list', 'tuple']
+    regd = ['Box', 'SubBox', 'Bag', 'Crate', 'Obj', 'list', 'tuple', 'object']
+    for p in progs:
+        for ic in insts:
+            for rc in regd:
+                for h in ('h:rev', 'h:items', None, 'omit'):
+                    for exact in (False, True):
+                        for pos in (0, 1, 2):
+                            for registry in (('module', 'glommer') if p['kind'] != 'flatten_fn' else ('module',)):
+                                hp = H()
+                                a = hp.alloc('list', 'list', [hp.alloc('list', 'list', [{'i': 1}, {'i': 2}]),
+                                                              hp.alloc('tuple', 'tuple', [{'i': 3}])])
+                                b = hp.alloc('list', 'list', [hp.alloc('list', 'list', [{'i': 4}]),
+                                                              hp.alloc('list', 'list', [{'i': 5}, {'i': 6}])])
+                                if ic in ('Box', 'SubBox', 'SubSubBox'):
+                                    t = hp.alloc('inst', ic, [['names', a], ['items', b]])
+                                elif ic == 'Crate':
+                                    t = hp.alloc('inst', ic, [['items', a]])
+                                elif ic in ('Bag', 'SubBag'):
+                                    hp.heap[a['r']]['c'] = ic
+                                    t = a
+                                elif ic == 'tuple':
+                                    hp.heap[a['r']]['k'] = hp.heap[a['r']]['c'] = 'tuple'
+                                    t = a
+                                else:
+                                    t = a
+                                events = [{'t': t}, {'t': t}]
+                                events.insert(pos, {'reg': {'cls': rc, 'exact': exact,
+                                                            'kw': [] if h == 'omit' else [['iterate', h]]}})
+                                yield normalise({'heap': hp.heap, 'events': events, 'registry': registry,
+                                                 'prog': dict(p)})
 
 
 def corpus():
@@ -759,7 +1095,8 @@ def corpus():
 
 
 def key(case):
-    return {'heap': case['heap'], 'targets': case['targets'], 'prog': case['prog']}
+    return {'heap': case['heap'], 'events': events_of(case), 'registry': case.get('registry', 'module'),
+            'prog': case['prog']}
 
 
 def nontrivial(case, verdict):
@@ -777,18 +1114,20 @@ def nontrivial(case, verdict):
             return max([len(vals)] + [size(x, depth + 1) for x in vals])
         if cell['k'] == 'dict':
             return max([len(vals)] + [size(x, depth + 1) for kv in vals for x in kv])
+        if cell['k'] == 'inst':
+            return max([0] + [size(kv[1], depth + 1) for kv in vals])
         return 0
-    return any(size(t) >= 2 for t in case['targets'])
+    return any(size(t) >= 2 for t in targets_of(case))
 
 
 def compact(case):
     """drop the cells no target (and no shared init) reaches; renumber"""
     heap = case['heap']
     live = set()
-    roots = list(case['targets'])
+    roots = targets_of(case)
     p = case['prog']
     if isinstance(p.get('init'), dict):
-        roots.append(p['init']['shared'])
+        roots += list(p['init'].values())
     for r in roots:
         reach_all(heap, r, live)
     if len(live) == len(heap):
@@ -804,14 +1143,17 @@ def compact(case):
         return x
     out = dict(case)
     out['heap'] = [dict(heap[a], v=[fix(x) for x in heap[a]['v']]) for a in order]
-    out['targets'] = [fix(t) for t in case['targets']]
+    out.pop('targets', None)
+    out['events'] = [({'t': fix(e['t'])} if 't' in e else e) for e in events_of(case)]
     if isinstance(p.get('init'), dict):
-        out['prog'] = dict(p, init={'shared': fix(p['init']['shared'])})
+        out['prog'] = dict(p, init={k: fix(v) for k, v in p['init'].items()})
     return out
 
 
 def shrink(case):
     base = {k: v for k, v in case.items() if not k.startswith('impl')}
+    base['events'] = events_of(case)
+    base.pop('targets', None)
     c0 = compact(json.loads(json.dumps(base)))
     if len(c0['heap']) < len(case['heap']):
         yield c0
@@ -820,11 +1162,20 @@ def shrink(case):
 
 
 def _shrink(case):
-    base = {k: v for k, v in case.items() if not k.startswith('impl')}
-    ts = case['targets']
-    for i in range(len(ts)):
-        if len(ts) > 1:
-            c = dict(base); c['targets'] = ts[:i] + ts[i + 1:]
+    base = {k: v for k, v in case.items() if not k.startswith('impl') and k != 'targets'}
+    es = events_of(case)
+    base['events'] = es
+    for i in range(len(es)):
+        if len(es) > 1:
+            c = dict(base); c['events'] = es[:i] + es[i + 1:]
+            yield c
+    if case.get('registry') == 'glommer':
+        c = dict(base); c['registry'] = 'module'
+        yield c
+    for i, e in enumerate(es):
+        if 'reg' in e and e['reg']['kw'] and e['reg']['kw'][0][1] not in ('h:rev', None):
+            c = dict(base)
+            c['events'] = es[:i] + [{'reg': dict(e['reg'], kw=[['iterate', 'h:rev']])}] + es[i + 1:]
             yield c
     heap = case['heap']
     for a, cell in enumerate(heap):
@@ -841,4 +1192,15 @@ def _shrink(case):
 
 def focus(disagreements, facts_changed):
     kinds = sorted({c['prog']['kind'] for c, _ in disagreements})
-    return {'kinds': kinds} if kinds else {}
+    out = {'kinds': kinds} if kinds else {}
+    if disagreements and all(any('reg' in e for e in events_of(c)) for c, _ in disagreements):
+        out['regs'] = True
+    return out
+
+
+def focus_changed(changed_funcs):
+    """a function of the registry / of target_iter changed: histories with registrations only"""
+    if any(('TargetRegistry' in f or 'register' in f or 'target_iter' in f or 'get_handler' in f)
+           for f in changed_funcs):
+        return {'regs': True}
+    return {}
